@@ -18,7 +18,8 @@ run() { # patch props...
       hit="$hit $p[$obl; no-input=$nf]"
     fi
   done
-  if [ -z "$hit" ]; then echo "MISSED  $patch (expected: $*)"; miss=1; else echo "caught  $patch ->$hit"; fi
+  if echo "$out" | grep -q "exit=2\|PATCH DOES NOT APPLY"; then echo "BROKEN  $patch (the check could not run: $(echo "$out" | grep -m1 "exit=2\|PATCH" | cut -c1-80))"; miss=1
+  elif [ -z "$hit" ]; then echo "MISSED  $patch (expected: $*)"; miss=1; else echo "caught  $patch ->$hit"; fi
 }
 if [ "$what" = all ] || [ "$what" = seeds ]; then
   for d in seeded/C*/; do id=$(basename "$d"); [ -f "$d/patch.diff" ] || continue
